@@ -7,8 +7,8 @@ CONSTANTS
   ConsumerSet = {"c1", "c2"}
   Coords = {"A", "X"}
   OpKinds = {"CreateStream", "DeleteStream", "Pause", "Resume", "SetReadonly", "ShrinkISR", "ExpandISR", "ChangeLeader", "PublishActivity"}
-  MaxOps = 3
-  MaxSnaps = 1
+  MaxOps = 4
+  MaxSnaps = 2
   MaxRestarts = 1
 INVARIANTS NoTombLive GroupsFine EpochsFine FlagsConsistent
 PROPERTIES A_RS_Streams A_RS_RoEff A_RS_GroupMembers A_NoDataLoss A_NoResurrection A_NoApplyError
